@@ -20,6 +20,7 @@ RULE = (
     '; pass 6: max_cholesky_size exactly at / one below the train, test and joint sizes, max_eager_kernel_size == joint size; exact GPs with two input tensors (Hadamard multitask); only the prediction-time CG tolerance is tightened'
     '; pass 7: models obtained through get_fantasy_model (caches updated, not recomputed) decided by the same post-condition for THEIR training data and likelihood; the models as members of an IndependentModelList with per-member call-time noise (None entries in every position)'
     "; pass 8: float32 test points handed to float64 models"
+    "; pass 9: the call-time noise= keyword with the homoskedastic likelihood (values down to 1e-8)"
 )
 REQUIRED = ["posterior_mean", "posterior_covar", "likelihood_adds_noise", "mean_cache", "path:linear_cg", "path:exact_predictive_covar"]
 ASSUMPTIONS = [
